@@ -74,14 +74,29 @@ Proof.
     change (TIME_TAG =? DATE_TAG) with false. change (TIME_TAG =? TIME_TAG) with true. cbn iota.
     rewrite app_nil_r in Dtf. rewrite Dtf. cbn [bind]. cbn [dt_loop].
     (* the arithmetic of the decoder *)
-    assert (A1 : as_i32 date = Z.of_N date) by (unfold as_i32; destruct (date mod 4294967296 <? 2147483648) eqn:E; lia).
-    cbn [bind]. rewrite A1.
-    assert (Y : Z.quot (Z.of_N date) 10000 = y) by (unfold date; rewrite Z.quot_div_nonneg by lia; lia).
+    cbn [bind].
+    assert (Y : Z.of_N (date / 10000) = y) by (unfold date; lia).
     rewrite Y.
-    assert (M : (date mod 4294967296 mod 10000) / 100 = mo) by (unfold date; lia).
-    assert (D : date mod 4294967296 mod 100 = d) by (unfold date; lia).
+    assert (M : (date mod 10000) / 100 = mo) by (unfold date; lia).
+    assert (D : date mod 100 = d) by (unfold date; lia).
     assert (H3 : time / 10000 = h) by (unfold time; lia).
     assert (M3 : (time mod 10000) / 100 = mi) by (unfold time; lia).
     assert (S3 : time mod 100 = s) by (unfold time; lia).
     rewrite M, D, H3, M3, S3, Hd, Ht. reflexivity.
+Qed.
+
+(* ---------- C02: the date-time a decoder answers is the one its digits spell — no wrapped number (after the fix of F8) ---------- *)
+Theorem datetime_dec_faithful bs y mo d h mi s r : datetime_dec bs = Ok (VDate y mo d h mi s, r) ->
+  exists date time, dt_loop (S (length bs)) bs None None = Ok (Some date, Some time, r) /\
+    Z.of_N date = (y * 10000 + Z.of_N mo * 100 + Z.of_N d)%Z /\ time = h * 10000 + mi * 100 + s /\
+    (0 <= y <= MAX_YEAR)%Z /\ 1 <= mo <= 12 /\ 1 <= d <= 31 /\ h < 24 /\ mi < 60 /\ s < 60.
+Proof.
+  unfold datetime_dec. destruct (dt_loop (S (length bs)) bs None None) as [[[[date|] [time|]] r0]| | |]; cbn [bind]; try discriminate.
+  destruct (ymd_ok _ _ _ && hms_ok _ _ _) eqn:E; [|discriminate]. intros [= <- <- <- <- <- <- <-].
+  exists date, time. split; [reflexivity|].
+  apply andb_prop in E. destruct E as [E1 E2]. unfold ymd_ok, hms_ok, MAX_YEAR in *.
+  repeat (match goal with H : (_ && _) = true |- _ => apply andb_prop in H; destruct H end).
+  assert (Hdm : days_in_month (Z.of_N (date / 10000)) (date mod 10000 / 100) <= 31).
+  { unfold days_in_month. destruct (_ || _); [lia|]. destruct (_ =? 2); [destruct (leap _); lia|lia]. }
+  repeat split; try lia.
 Qed.
